@@ -91,6 +91,10 @@ class StochasticSolver(ABC):
     def set_failed_epoch(self):
         """Set internal state on failed epoch."""
 
+    def _reset_state(self):
+        """Forget state of a previous solve so each solve only depends on its inputs."""
+        self._nfails = 0
+
     def solve(  # noqa: PLR0913
         self,
         initial_model: ttb.ktensor,
@@ -135,7 +139,7 @@ class StochasticSolver(ABC):
 
         # Setup loop variables
         model = initial_model.copy()
-        self._nfails = 0
+        self._reset_state()
 
         best_model = model.copy()
         f_est_prev = f_est
@@ -318,6 +322,14 @@ class Adam(StochasticSolver):
         self._v: List[np.ndarray] = []
         self._v_prev: List[np.ndarray] = []
 
+    def _reset_state(self):
+        super()._reset_state()
+        self._total_iterations = 0
+        self._m = []
+        self._m_prev = []
+        self._v = []
+        self._v_prev = []
+
     def set_failed_epoch(  # noqa: D102
         self,
     ):
@@ -385,6 +397,10 @@ class Adagrad(StochasticSolver):
             max_iters,
             printitn,
         )
+        self._gnormsum = 0.0
+
+    def _reset_state(self):
+        super()._reset_state()
         self._gnormsum = 0.0
 
     def set_failed_epoch(  # noqa: D102
